@@ -68,10 +68,13 @@ pub fn run(mut rep: Report) -> i32 {
     );
     let part = format!("bounded transport grid, deviations<={max_dev}");
     let wall = Instant::now() + Duration::from_secs(if thorough { 560 } else { 40 });
-    let mut acc = par_for(&grid, rep.args.threads, wall, |idx, g, acc: &mut Acc| {
+    let grid_len = grid.len();
+    let grid = crate::c19::spread(grid);
+    let mut acc = par_for(&grid, rep.args.threads, wall, |_, (idx, g), acc: &mut Acc| {
+        let idx = *idx;
         let mut dead = 0u64;
         let st = dfs(
-            &crate::session::dfs_cfg(max_dev, wall),
+            &crate::session::dfs_cfg_n(max_dev, wall, 300_000),
             |ch: &Chooser| {
                 let (stores, logs) = build(&chains, g);
                 run_pair(ch, stores, logs, Cap::Bounded(g.c), 3_000)
@@ -179,7 +182,7 @@ pub fn run(mut rep: Report) -> i32 {
     }
     rep.set("smallest_deadlocking_volume", json!(table));
     rep.set("per_capacity", json!(acc.counters));
-    rep.set("grid_points", json!(grid.len()));
+    rep.set("grid_points", json!(grid_len));
     acc.into_report(&mut rep, &part, max_dev);
     rep.assume("capacity c: poll_ready is Pending while c items are queued; c = 0: an item is accepted only while the receiver task is parked in poll_next and has not started sending since");
     rep.assume("volumes above the grid and capacities other than {0,1,2,4,8} are not explored; the property is unbounded in both");
